@@ -105,6 +105,47 @@ theorem pl_right_minus (c : Counters) (h : c.left + 1 ≤ usizeMax) :
   simp [paintLine, linenumbersAndStyles, lookupArm, numberArms, St.code, incrementFor, incrementRule,
     panelCode, bumpN, addUsize, addUsizeSat, h, emitFor, lookupEmit, emitArms]
 
+/-! ### the correction match does not look at the raw-line payload of the states -/
+
+/-- Every state pattern of a correction-arm table leaves the payload unconstrained. -/
+def payloadFree (arms : List (List (Nat × Nat) × (Nat × Nat) × Nat × Nat × Nat)) : Bool :=
+  arms.all fun arm => arm.1.all (fun pat => pat.2 = 99) && arm.2.1.2 = 99
+
+theorem patMatch2_free (pat : Nat × Nat) (code raw raw' : Nat) (h : pat.2 = 99) :
+    patMatch2 pat code raw = patMatch2 pat code raw' := by
+  simp [patMatch2, patMatch, h]
+
+theorem any_patMatch2_free (lp : List (Nat × Nat)) (code raw raw' : Nat) (h : lp.all (fun pat => pat.2 = 99) = true) :
+    lp.any (patMatch2 · code raw) = lp.any (patMatch2 · code raw') := by
+  induction lp with
+  | nil => rfl
+  | cons pat rest ih =>
+    simp only [List.all_cons, Bool.and_eq_true, decide_eq_true_eq] at h
+    simp only [List.any_cons, patMatch2_free pat code raw raw' h.1, ih (by simpa using h.2)]
+
+theorem fixLookup_free (ls lraw rs rraw lraw' rraw' mi pi : Nat) :
+    ∀ (arms : List (List (Nat × Nat) × (Nat × Nat) × Nat × Nat × Nat)), payloadFree arms = true →
+      fixLookup ls lraw rs rraw mi pi arms = fixLookup ls lraw' rs rraw' mi pi arms := by
+  intro arms
+  induction arms with
+  | nil => intro _; rfl
+  | cons arm rest ih =>
+    intro h
+    obtain ⟨lp, rp, mp, pp, act⟩ := arm
+    simp only [payloadFree, List.all_cons, Bool.and_eq_true, decide_eq_true_eq] at h
+    obtain ⟨⟨hl, hr⟩, hrest⟩ := h
+    simp only [fixLookup, any_patMatch2_free lp ls lraw lraw' hl, patMatch2_free rp rs rraw rraw' hr,
+      ih (by simpa [payloadFree] using hrest)]
+
+/-- The generated arms of the correction match constrain no payload. -/
+theorem sbsFixArms_payloadFree : payloadFree sbsFixArms = true := by decide
+
+theorem applyFix_ignores_raw (c : Counters) (ls rs : St) (lraw rraw lraw' rraw' mi pi : Bool) :
+    applyFix c ls rs lraw rraw mi pi = applyFix c ls rs lraw' rraw' mi pi := by
+  unfold applyFix
+  rw [fixLookup_free ls.code _ rs.code _ (if lraw' then 1 else 0) (if rraw' then 1 else 0) _ _ sbsFixArms
+    sbsFixArms_payloadFree]
+
 /-! ### one row of the loop, by the states found at its indices -/
 
 theorem lookupSt_of (l : List St) (i : Nat) (s : St) (h : l[i]? = some s) : lookupSt l i = .ok s := by
